@@ -57,8 +57,10 @@ def _run(cmd):
     return r.stdout
 
 
-def _prune(prefix, keep):
-    for d in glob.glob(os.path.join(BUILD, prefix + "-*")):
+def _prune(prefix, keep, keep_n=3):
+    """Keeps the newest few builds of a kind: a concurrently running check may still use an older one."""
+    ds = sorted(glob.glob(os.path.join(BUILD, prefix + "-*")), key=lambda d: os.path.getmtime(d), reverse=True)
+    for d in ds[keep_n:]:
         if os.path.basename(d) != keep:
             shutil.rmtree(d, ignore_errors=True)
 
